@@ -5,6 +5,11 @@
 //! (inline and off-reader routes).  Observed: per transport the ordered list of
 //! response frames, the per-route user-function invocation counters, the
 //! middleware counter and whether the connection still answers afterwards.
+//! Harness-only switches change HOW a pipeline reaches a server, never what is
+//! expected: `gap=` / `cfg=` (trickled / timeout-configured async server),
+//! `cuts=` (requests that arrive in two pieces with a pause inside the frame),
+//! `oq=` + `hold=` (WebSocket peer that reads nothing until it has sent
+//! everything, tiny outbound queue and socket buffers).
 //!
 //! The oracle inputs of each request (query is UTF-8, body decodes as the
 //! kind's input type / the decoder's error text, what the user function does)
@@ -80,6 +85,8 @@ fn act_value(v: &Value) -> Act {
     match o.get("op").and_then(|x| x.as_str()) {
         Some("ok") => Act::Ok(json!({"r": n})),
         Some("none") => Act::None,
+        // a result much larger than the request (`k` filler characters)
+        Some("pad") => Act::Ok(json!({"r": n, "pad": "x".repeat(o.get("k").and_then(|k| k.as_u64()).unwrap_or(0).min(8192) as usize)})),
         Some("err") => Act::Err(o.get("code").and_then(|c| c.as_u64()).unwrap_or(0) as usize % CODES.len(), format!("E{n}")),
         Some("panic") => Act::Panic,
         Some("gate") => Act::Gate,
@@ -519,6 +526,27 @@ fn tcp_send(slot: &mut Option<net::RawTcp>, addr: SocketAddr, frames: &[Vec<u8>]
     all.extend_from_slice(&sync_frame()[..SYNC_HEAD]);
     c.send(&all).map_err(|e| format!("send:{}", e.kind()))
 }
+/// `cuts=<ms>:<o1>.<o2>...`: the same bytes as `tcp_send`, but request i with 0 < o_i < its length
+/// leaves in two pieces, the peer pausing `ms` after the first o_i bytes of the frame (inside the
+/// header, between header and query, inside the query, inside the body)
+fn tcp_send_cut(slot: &mut Option<net::RawTcp>, addr: SocketAddr, frames: &[Vec<u8>], ms: u64, cuts: &[usize]) -> Result<(), String> {
+    let c = tcp_conn(slot, addr)?;
+    let mut all = Vec::new();
+    let mut marks = vec![];
+    for (i, f) in frames.iter().enumerate() {
+        let k = cuts.get(i).copied().unwrap_or(0);
+        if k > 0 && k < f.len() { marks.push(all.len() + k); }
+        all.extend_from_slice(f);
+    }
+    all.extend_from_slice(&sync_frame()[..SYNC_HEAD]);
+    let mut from = 0;
+    for m in marks {
+        c.send(&all[from..m]).map_err(|e| format!("send:{}", e.kind()))?;
+        std::thread::sleep(Duration::from_millis(ms));
+        from = m;
+    }
+    c.send(&all[from..]).map_err(|e| format!("send:{}", e.kind()))
+}
 /// read timeout of the `gap=` server: every single gap is shorter, a whole trickled pipeline longer
 const SLOW_READ_TIMEOUT: Duration = Duration::from_millis(400);
 /// how much of the sync request is sent ahead, with the pipeline
@@ -598,17 +626,47 @@ fn run_case(line: &str) -> String {
         let mut tcp_slots = w.tcp_conns.lock().unwrap();
         let mut ws_slots = w.ws_conns.lock().unwrap();
         let use_tcp = tr & 1 != 0; let use_atcp = tr & 2 != 0; let use_ws = tr & 4 != 0;
-        let ws_ep = if sat { &w.sat } else { &set.ws };
+        // oq=<n> hold=<ms>: a WebSocket server of its own whose outbound queue holds n messages, over
+        // 4 KiB socket buffers, and a peer that reads nothing until it has sent the whole pipeline,
+        // then waits `hold`, lets the gated handlers return together, waits `hold` again and only then reads
+        let oq: Option<usize> = f.get("oq").map(|q| ph(q) as usize);
+        let hold = Duration::from_millis(f.get("hold").map(|h| ph(h)).unwrap_or(0));
+        let oq_ep: Option<Endpoint> = match oq {
+            None => None,
+            Some(q) => {
+                let s = Shared::new();
+                match net::start_ws_small(WebSocketServer::new(build_router(&s, mw)).with_offreader_limit(0).with_outbound_capacity(q.max(1))) {
+                    Ok(addr) => Some(Endpoint { addr, sh: s }),
+                    Err(e) => return format!("crash=oq-server:{}", e.replace(' ', "_")),
+                }
+            }
+        };
+        let fresh_ws = sat || oq.is_some();
+        let ws_ep = match &oq_ep { Some(e) => e, None => if sat { &w.sat } else { &set.ws } };
+        let cuts: Option<(u64, Vec<usize>)> = f.get("cuts").and_then(|c| c.split_once(':')).map(|(ms, l)| (ph(ms), l.split('.').map(|x| ph(x) as usize).collect()));
         // --- send everything first
         let mut notes: Vec<String> = vec![];
-        if use_tcp { set.tcp.sh.reset(); if let Err(e) = tcp_send(&mut tcp_slots[base], set.tcp.addr, &frames) { notes.push(format!("tcp-{e}")); } }
+        if let Some((ms, cl)) = &cuts {
+            // both TCP servers receive the pieces at the same moments
+            set.tcp.sh.reset(); set.atcp.sh.reset();
+            let (lo, hi) = tcp_slots.split_at_mut(base + 1);
+            let (s0, s1) = (&mut lo[base], &mut hi[0]);
+            let (r0, r1) = std::thread::scope(|sc| {
+                let h0 = sc.spawn(|| if use_tcp { tcp_send_cut(s0, set.tcp.addr, &frames, *ms, cl) } else { Ok(()) });
+                let h1 = sc.spawn(|| if use_atcp { tcp_send_cut(s1, set.atcp.addr, &frames, *ms, cl) } else { Ok(()) });
+                (h0.join().unwrap_or(Err("panic".into())), h1.join().unwrap_or(Err("panic".into())))
+            });
+            if let Err(e) = r0 { notes.push(format!("tcp-{e}")); }
+            if let Err(e) = r1 { notes.push(format!("atcp-{e}")); }
+        }
+        if use_tcp && cuts.is_none() { set.tcp.sh.reset(); if let Err(e) = tcp_send(&mut tcp_slots[base], set.tcp.addr, &frames) { notes.push(format!("tcp-{e}")); } }
         // gap=<ms>: the frames trickle in one by one on a fresh connection to the server that has a
         // read timeout (an idle timeout is per read: a steady trickle never trips it)
         // cfg=1: the same server (read and write timeouts configured) for an ordinary pipeline
         let gap = f.get("gap").map(|g| ph(g)).or(if f.get("cfg").map(|c| c == "1").unwrap_or(false) { Some(0) } else { None });
         let atcp_ep = if gap.is_some() { &w.slow } else { &set.atcp };
         let mut slow_slot: Option<net::RawTcp> = None;
-        if use_atcp {
+        if use_atcp && cuts.is_none() {
             atcp_ep.sh.reset();
             match gap {
                 None => if let Err(e) = tcp_send(&mut tcp_slots[base + 1], atcp_ep.addr, &frames) { notes.push(format!("atcp-{e}")); },
@@ -627,8 +685,8 @@ fn run_case(line: &str) -> String {
         if use_ws {
             ws_ep.sh.reset();
             ws_ep.sh.set_gate(!any_gate);
-            let slot: &mut Option<net::RawWs> = if sat { &mut sat_conn } else { &mut ws_slots[if mw { 1 } else { 0 }] };
-            if slot.is_none() { match net::RawWs::connect(ws_ep.addr) { Ok(c) => *slot = Some(c), Err(e) => notes.push(format!("ws-connect:{}", e.replace(' ', "_"))) } }
+            let slot: &mut Option<net::RawWs> = if fresh_ws { &mut sat_conn } else { &mut ws_slots[if mw { 1 } else { 0 }] };
+            if slot.is_none() { match if oq.is_some() { net::RawWs::connect_small(ws_ep.addr) } else { net::RawWs::connect(ws_ep.addr) } { Ok(c) => *slot = Some(c), Err(e) => notes.push(format!("ws-connect:{}", e.replace(' ', "_"))) } }
             if let Some(c) = slot.as_mut() {
                 for fr in frames.iter().chain(std::iter::once(&sync_frame())) { if let Err(e) = c.send(fr) { notes.push(format!("ws-send:{}", e.replace(' ', "_"))); break; } }
             }
@@ -638,11 +696,18 @@ fn run_case(line: &str) -> String {
         let mut t_atcp = if use_atcp { Some(if gap.is_some() { tcp_collect(&mut slow_slot, expected) } else { tcp_collect(&mut tcp_slots[base + 1], expected) }) } else { None };
         let mut t_ws = None;
         if use_ws {
-            let slot: &mut Option<net::RawWs> = if sat { &mut sat_conn } else { &mut ws_slots[if mw { 1 } else { 0 }] };
+            let slot: &mut Option<net::RawWs> = if fresh_ws { &mut sat_conn } else { &mut ws_slots[if mw { 1 } else { 0 }] };
             let mut o = TObs { resps: vec![], alive: false, note: None };
             if let Some(c) = slot.as_mut() {
-                let deadline = Instant::now() + Duration::from_secs(6);
                 let mut released = !any_gate;
+                if oq.is_some() {
+                    // nothing has been read so far: the writer is stuck on the socket and the queue is
+                    // full when the parked handlers return together; reading starts only afterwards
+                    std::thread::sleep(hold);
+                    ws_ep.sh.set_gate(true); released = true;
+                    std::thread::sleep(hold);
+                }
+                let deadline = Instant::now() + Duration::from_secs(if oq.is_some() { 10 } else { 6 });
                 loop {
                     let want = if released { expected } else { expected.saturating_sub(1) };
                     if o.alive && o.resps.len() >= want {
@@ -666,7 +731,7 @@ fn run_case(line: &str) -> String {
         if let Some(o) = t_tcp.as_mut() { tcp_extras(&mut tcp_slots[base], o); }
         if let Some(o) = t_atcp.as_mut() { if gap.is_some() { tcp_extras(&mut slow_slot, o); } else { tcp_extras(&mut tcp_slots[base + 1], o); } }
         if let Some(o) = t_ws.as_mut() {
-            let slot: &mut Option<net::RawWs> = if sat { &mut sat_conn } else { &mut ws_slots[if mw { 1 } else { 0 }] };
+            let slot: &mut Option<net::RawWs> = if fresh_ws { &mut sat_conn } else { &mut ws_slots[if mw { 1 } else { 0 }] };
             let mut broken = !o.alive;
             if let Some(c) = slot.as_mut() {
                 loop {
@@ -916,6 +981,60 @@ fn gen_cases(seed: u64, thorough: bool) -> Vec<String> {
         reqs.push(last);
         let i = lines.len();
         lines.push(format!("{} gap=78", case_line(i, false, 2, false, &reqs)));
+    }
+    // a sender that pauses INSIDE a frame (longer than any internal poll interval a server may use):
+    // requests leave in two pieces, cut inside the header, at the header/query boundary, inside the
+    // query, at the query/body boundary, inside the body, one byte before the end; both TCP servers
+    for k in 0..(if thorough { 24 } else { 6 }) {
+        let inline: Vec<usize> = (0..NROUTES).filter(|i| !ROUTES[*i].off).collect();
+        let n = rng.range(2, 4) as usize;
+        let mut reqs: Vec<Req> = (0..n).map(|_| { let rid = *rng.pick(&inline); let mut r = g.request(&mut rng, Some(rid), false); if rng.chance(3, 4) { r.ntf = 0; } r }).collect();
+        reqs[n - 1].ntf = 0;
+        let ncut = if k % 3 == 0 { 1 } else { 2 };
+        let mut cuts = vec![0usize; n];
+        for j in 0..ncut {
+            let at = (k + j * 2) % n;
+            let (ql, bl) = (reqs[at].q.len(), reqs[at].b.len());
+            let mut opts: Vec<usize> = vec![*rng.pick(&[1usize, 8, 20, 33, 47]), 48 + ql + bl - 1];
+            if ql + bl > 0 { opts.push(48); }
+            if ql >= 2 { opts.push(48 + ql / 2); }
+            if ql > 0 && bl > 0 { opts.push(48 + ql); }
+            if bl >= 2 { opts.push(48 + ql + bl / 2); }
+            let c = opts[(k / 2 + j) % opts.len()];
+            cuts[at] = if c > 0 && c < 48 + ql + bl { c } else { 20 };
+        }
+        let i = lines.len();
+        lines.push(format!("{} cuts=190:{}", case_line(i, k % 4 == 3, 3, false, &reqs), cuts.iter().map(|c| hx(*c as u64)).collect::<Vec<_>>().join(".")));
+    }
+    // a peer that sends a whole pipeline before it reads anything, on a WebSocket server whose
+    // outbound queue holds 1..3 messages, over 4 KiB socket buffers: the responses (padded to 0.5..1
+    // KiB by the user function) overrun the socket buffers and the queue while most requests are
+    // still unread.  Flavours: inline routes only; some off-reader handlers parked on the gate first,
+    // released together while the queue is full; inline and off-reader routes interleaved.
+    for k in 0..(if thorough { 24 } else { 6 }) {
+        let flavour = k % 3;
+        let mwb = k % 4 == 3;
+        let mut reqs: Vec<Req> = vec![];
+        let plain = |g: &mut Gen, rng: &mut Rng, q: &str, body: Value| -> Req {
+            Req { id: g.id(rng), ntf: 0, ver: 1, qf: 1, bf: 2, ec: 0, q: q.as_bytes().to_vec(), b: serde_json::to_vec(&body).unwrap(), sat: false }
+        };
+        if flavour == 1 {
+            for _ in 0..rng.range(3, 8) { let q = *rng.pick(&["/jsonb", "/jctxb", "/erasedb"]); reqs.push(plain(&mut g, &mut rng, q, json!({"op": "gate"}))); }
+        }
+        let n = rng.range(40, 56) as usize;
+        for _ in 0..n {
+            let v = rng.below(1000);
+            let pad = json!({"op": "pad", "v": v, "k": rng.range(500, 1000)});
+            let r = match rng.below(12) {
+                0 => { let inline: Vec<usize> = (0..NROUTES).filter(|i| !ROUTES[*i].off).collect(); let t = if rng.chance(1, 3) { None } else { Some(*rng.pick(&inline)) }; g.request(&mut rng, t, false) }
+                1 | 2 if flavour == 2 => { let q = *rng.pick(&["/jsonb", "/jctxb"]); plain(&mut g, &mut rng, q, pad) }
+                3 if flavour == 2 => plain(&mut g, &mut rng, "/typedb", json!({"op": "ok", "v": v})),
+                _ => { let q = *rng.pick(&["/json", "/json", "/jctx", "/reg/fn", "/reg/deep/fn2", "/st/a", "/st/a/b"]); plain(&mut g, &mut rng, q, pad) }
+            };
+            reqs.push(r);
+        }
+        let i = lines.len();
+        lines.push(format!("{} oq={} hold=12c", case_line(i, mwb, 4, false, &reqs), 1 + (k / 3) % 3));
     }
     lines
 }
